@@ -1950,6 +1950,11 @@ func opcodeCheckSig(op *ParsedOpcode, t *thread) error {
 	// least 1 byte is needed for the hash type below.  The full length is
 	// checked depending on the script flags and upon parsing the signature.
 	if len(fullSigBytes) < 1 {
+		// an empty signature is a valid way to fail the check, but the public
+		// key must still respect the encoding the flags demand
+		if err = t.checkPubKeyEncoding(pkBytes); err != nil {
+			return err
+		}
 		t.dstack.PushBool(false)
 		return nil
 	}
@@ -2007,6 +2012,10 @@ func opcodeCheckSig(op *ParsedOpcode, t *thread) error {
 
 	pubKey, err := bec.ParsePubKey(pkBytes, bec.S256())
 	if err != nil {
+		// the (non-empty) signature failed: that is an error under NULLFAIL
+		if t.hasFlag(scriptflag.VerifyNullFail) {
+			return errs.NewError(errs.ErrNullFail, "signature not empty on failed checksig")
+		}
 		t.dstack.PushBool(false)
 		return nil //nolint:nilerr // only need a false push in this case
 	}
@@ -2018,12 +2027,15 @@ func opcodeCheckSig(op *ParsedOpcode, t *thread) error {
 		signature, err = bec.ParseSignature(sigBytes, bec.S256())
 	}
 	if err != nil {
+		if t.hasFlag(scriptflag.VerifyNullFail) {
+			return errs.NewError(errs.ErrNullFail, "signature not empty on failed checksig")
+		}
 		t.dstack.PushBool(false)
 		return nil //nolint:nilerr // only need a false push in this case
 	}
 
 	ok := signature.Verify(hash, pubKey)
-	if !ok && t.hasFlag(scriptflag.VerifyNullFail) && len(sigBytes) > 0 {
+	if !ok && t.hasFlag(scriptflag.VerifyNullFail) && len(fullSigBytes) > 0 {
 		return errs.NewError(errs.ErrNullFail, "signature not empty on failed checksig")
 	}
 
